@@ -258,6 +258,11 @@ func createPointerJobs(left, right IndividualNodes, options *IndividualNodesComp
 func createUniqueJobs(left, right IndividualNodes, options *IndividualNodesCompareOptions, totals chan int64, jobs chan *IndividualComparison) {
 	ws := options.ConcurrentJobs()
 
+	// The lookups are independent of each other, so they are shared between
+	// the workers. Each worker only writes the elements of its own left
+	// individuals.
+	matches := make([]*IndividualComparison, len(left))
+
 	util.WorkerPool(ws, func(w int) {
 		for leftI := w; leftI < len(left); leftI += ws {
 			a := left[leftI]
@@ -268,21 +273,38 @@ func createUniqueJobs(left, right IndividualNodes, options *IndividualNodesCompa
 			// identifier. All we can do in this case is to pick the first
 			// one.
 			if len(bs) > 0 {
-				options.adjustTotal(totals)
 				ss := a.SurroundingSimilarity(bs[0], options.SimilarityOptions, true)
 
-				jobs <- &IndividualComparison{
+				matches[leftI] = &IndividualComparison{
 					Left:         a,
 					Right:        bs[0],
 					Similarity:   ss,
 					certainMatch: true,
 				}
-
-				options.sentA.Store(a.Pointer(), nil)
-				options.sentB.Store(bs[0].Pointer(), nil)
 			}
 		}
 	})
+
+	// An individual on the right can only be matched once. If several
+	// individuals on the left share a unique identifier with it, the first of
+	// them (in the order of the slice, not in the order the workers happened to
+	// finish) is matched and the others are left for the pointer and similarity
+	// comparisons.
+	for _, match := range matches {
+		if match == nil {
+			continue
+		}
+
+		if _, ok := options.sentB.Load(match.Right.Pointer()); ok {
+			continue
+		}
+
+		options.adjustTotal(totals)
+		jobs <- match
+
+		options.sentA.Store(match.Left.Pointer(), nil)
+		options.sentB.Store(match.Right.Pointer(), nil)
+	}
 }
 
 func createJobs(totals chan int64, left, right IndividualNodes, options *IndividualNodesCompareOptions) chan *IndividualComparison {
